@@ -19,7 +19,9 @@ RULE = (
     "incl. all boundaries; parameter maps "
     "per transport scheme with integers spelled dec/hex/oct/bin; range expressions: items int|lo-hi joined by ',' "
     "(1-D) and outer:inner entries joined by spaces (2-D), overlaps, singletons, reversed, repeated/bare outer "
-    "keys) plus strings outside the grammar; a case is non-trivial when it is not the empty string; distinct = "
+    "keys) plus strings outside the grammar; every URI case uses both URI objects (the built and the re-parsed one) a "
+    "second time after the caller made 1..3 edits (change a value, delete a key, clear, add a key) to the parameter map "
+    "it had got back from the URI and to the map it had handed to from_parts; a case is non-trivial when it is not the empty string; distinct = "
     "distinct (kind, input) pairs"
 )
 ASSUMPTIONS = [
@@ -33,11 +35,12 @@ ASSUMPTIONS = [
 ]
 EXHAUSTIVE = {"quick": False, "thorough": False}
 ENGINE = "grammar-generators"
-TECHNIQUE = "runtime oracle on generated inputs: generate-with-denotation (URI parts, host/port, range grammar) and compare the real parsers' results with the constructed meaning"
+TECHNIQUE = "runtime oracle on generated inputs: generate-with-denotation (URI parts, host/port, range grammar) and compare the real parsers' results with the constructed meaning, at the first use of a URI object and again after the caller edited the maps it owns"
 LEVEL_TEXT = (
     "Exploration: 10^4 (quick) to 10^6 (thorough) generated URIs, host/port pairs and range expressions are pushed through "
     "the real TargetURI / split_host_port / join_host_port / transport Config / unravel / unravel_2d / Ranges / Ranges2D code "
-    "and compared with the meaning they were generated from. Held means held on those inputs; the grammars are the ones the "
+    "and compared with the meaning they were generated from; each URI object is read and handed to its transport config a "
+    "second time after the caller edited the parameter maps it owns. Held means held on those inputs; the grammars are the ones the "
     "statement names."
 )
 LEVEL_NOTE = (
@@ -81,6 +84,16 @@ def required_reach(tier: str) -> dict[str, int]:
         "ranges_type.list": 100,
         "ranges_type.ints": 100,
         "uri.path": 50,
+        # further uses of the same URI object after the caller edited the map it got back / handed in
+        "uri.second-use": 500,
+        "uri.second-use.edited": 500,
+        "uri.second-use.edit.change": 50,
+        "uri.second-use.edit.delete": 50,
+        "uri.second-use.edit.clear": 50,
+        "uri.second-use.edit.add": 50,
+        "cfg.second-use.doip": 50,
+        "cfg.second-use.hsfz": 50,
+        "cfg.second-use.isotp": 50,
         "spelling.hex": 100,
         "spelling.oct": 100,
         "spelling.bin": 100,
@@ -263,7 +276,8 @@ def case_uri(ctx: Any, rng: random.Random) -> None:
     ctx.sample({"kind": "uri", **case})
     comp = f"{kind}{'+port' if port is not None else ''}"
     try:
-        built = TargetURI.from_parts(scheme, host, port, args)
+        given = dict(args)  # the caller's own parameter map (edited by the caller further down)
+        built = TargetURI.from_parts(scheme, host, port, given)
         raw = str(built)
         u = TargetURI(raw)
         got_scheme = u.scheme
@@ -341,22 +355,113 @@ def case_uri(ctx: Any, rng: random.Random) -> None:
     if not loc_ok:
         ctx.violation("uri/location", "location is not scheme://netloc", {"kind": "uri", "case": case, "got": u.location})
     # transport config acceptance with the same numeric settings
-    if scheme in SCHEME_PARAMS:
-        if scheme == "doip":
-            from gallia.transports.doip import DoIPConfig as Cfg
-        elif scheme == "hsfz":
-            from gallia.transports.hsfz import HSFZConfig as Cfg
-        else:
-            from gallia.transports.isotp import ISOTPConfig as Cfg
-        ctx.reach(f"cfg.{scheme}")
+    first_ok = check_cfg(ctx, scheme, flat, meaning, case, "cfg", "cfg")
+    # ---- further uses of the same URI objects after the caller edited what it got back / what it handed in ----
+    # (a URI is handed to connect() and used again by reconnect(); scanners derive the URI of the next ECU from the
+    # parameter map of the one just found: what the URI denotes is what was written, at every use)
+    edits = gen_edits(rng, want_flat, scheme)
+    apply_edits(flat, edits)  # the caller's copy of the parameter map, obtained from u
+    apply_edits(given, gen_edits(rng, want_flat, scheme))  # the caller's own map, handed to from_parts
+    ctx.reach("uri.second-use")
+    for e in edits:
+        ctx.reach(f"uri.second-use.edit.{e[0]}")
+    if flat != want_flat:
+        ctx.reach("uri.second-use.edited")
+    for who, obj in (("parsed", u), ("built", built)):
+        w = {"kind": "uri", "case": case, "object": who, "edits": edits}
         try:
-            cfg = Cfg(**flat)
+            again = {
+                "text": str(obj), "scheme": str(obj.scheme), "port": obj.port, "netloc": obj.netloc,
+                "location": obj.location, "hostname": obj.hostname,
+            }
+            flat_b = obj.qs_flat
         except Exception as e:
-            ctx.violation(f"cfg/{scheme}/rejects/{type(e).__name__}", f"{scheme} config rejects parameters of a generated URI", {"kind": "uri", "case": case, "error": repr(e)[:300]})
-            return
-        for key, v in meaning.items():
-            if getattr(cfg, key) != v:
-                ctx.violation(f"cfg/{scheme}/value-differs/{key}", f"{scheme} config field {key} differs from the URI's value", {"kind": "uri", "case": case, "got": getattr(cfg, key)})
+            ctx.violation(f"uri/second-use/raises/{type(e).__name__}", "the URI object cannot be read a second time", {**w, "error": repr(e)})
+            continue
+        firsts = {"text": raw, "scheme": scheme, "port": port, "netloc": u.netloc, "location": f"{scheme}://{u.netloc}", "hostname": got_host}
+        for name, first in firsts.items():
+            if again[name] != first:
+                ctx.violation(f"uri/second-use/{name}-differs", f"{name} of the same URI object differs at its second use", {**w, "got": again[name], "first": first})
+        if flat_b != want_flat:
+            ctx.violation(
+                "uri/second-use/params-differ",
+                "the parameter map of the same URI object differs from the written one after the caller edited the map it had got back",
+                {**w, "got": flat_b},
+            )
+        if scheme in SCHEME_PARAMS and first_ok:
+            ctx.reach(f"cfg.second-use.{scheme}")
+            check_cfg(ctx, scheme, flat_b, meaning, w, "cfg-second-use", "at the second use of the same URI object: ")
+
+
+def check_cfg(ctx: Any, scheme: str, flat: dict[str, str], meaning: dict[str, int], witness_case: dict[str, Any], prefix: str, what: str) -> bool:
+    """the transport config of the scheme accepts the parameter map and holds the numbers that were written"""
+    if scheme not in SCHEME_PARAMS:
+        return False
+    if scheme == "doip":
+        from gallia.transports.doip import DoIPConfig as Cfg
+    elif scheme == "hsfz":
+        from gallia.transports.hsfz import HSFZConfig as Cfg
+    else:
+        from gallia.transports.isotp import ISOTPConfig as Cfg
+    second = prefix != "cfg"
+    wit = witness_case if second else {"kind": "uri", "case": witness_case}
+    if not second:
+        ctx.reach(f"cfg.{scheme}")
+    try:
+        cfg = Cfg(**flat)
+    except Exception as e:
+        ctx.violation(
+            f"{prefix}/{scheme}/rejects/{type(e).__name__}",
+            f"{what if second else ''}{scheme} config rejects parameters of a generated URI",
+            {**wit, "error": repr(e)[:300]},
+        )
+        return False
+    for key, v in meaning.items():
+        if getattr(cfg, key) != v:
+            ctx.violation(
+                f"{prefix}/{scheme}/value-differs/{key}",
+                f"{what if second else ''}{scheme} config field {key} differs from the URI's value",
+                {**wit, "got": getattr(cfg, key)},
+            )
+    return True
+
+
+EDIT_KINDS = ["change", "delete", "clear", "add"]
+
+
+def gen_edits(rng: random.Random, flat: dict[str, str], scheme: str) -> list[list[Any]]:
+    """what a caller does with a parameter map that is its own: derive a neighbour's map (other values), drop keys,
+    empty it, add keys - 1..3 edits (recorded in the witness so that replay can redo them)"""
+    keys = sorted(flat)
+    out: list[list[Any]] = []
+    for _ in range(rng.randint(1, 3)):
+        k = rng.choice(EDIT_KINDS) if keys else "add"
+        if k == "change":
+            key = rng.choice(keys)
+            limits = {name: mx for name, _, mx in SCHEME_PARAMS.get(scheme, [])}
+            v = spell(rng, rng.randint(0, limits[key])) if key in limits and rng.random() < 0.8 else rng.choice(["zz", "", "-1", "true"])
+            if v == flat[key]:
+                v += "0"
+            out.append(["change", key, v])
+        elif k == "delete":
+            out.append(["delete", rng.choice(keys)])
+        elif k == "clear":
+            out.append(["clear"])
+        else:
+            out.append(["add", rng.choice(["tags", "is_fd", "x_note", "dst_addr2"]), rng.choice(["1", "true", "0x7f"])])
+    return out
+
+
+def apply_edits(d: dict[str, Any], edits: list[list[Any]]) -> None:
+    for e in edits:
+        if e[0] == "change":
+            d[e[1]] = e[2]
+        elif e[0] == "delete":
+            d.pop(e[1], None)
+        elif e[0] == "clear":
+            d.clear()
+        else:
+            d[e[1]] = e[2]
 
 
 def case_hostport(ctx: Any, rng: random.Random) -> None:
@@ -599,6 +704,11 @@ def replay(ctx: Any, witness: dict[str, Any]) -> None:
             u = TargetURI(str(TargetURI.from_parts(c["scheme"], c["host"], c["port"], c["args"])))
             if u.port != c["port"] or u.qs_flat != {a: str(b) for a, b in c["args"].items()} or not hosts_equal(host_kind(c["host"]), c["host"], u.hostname):
                 ctx.violation("replay/uri", "URI round trip differs", witness)
+            if "edits" in witness:
+                want = {a: str(b) for a, b in c["args"].items()}
+                apply_edits(u.qs_flat, witness["edits"])
+                if str(u) != c.get("uri", str(u)) or u.qs_flat != want:
+                    ctx.violation("replay/uri-second-use", "the same URI object denotes something else at its second use", witness)
         elif k == "hostport":
             c = witness["case"]
             got = split_host_port(join_host_port(c["host"], c["port"]))
